@@ -79,6 +79,10 @@ fn cmd_replay(args: &[String]) -> i32 {
         } else {
             concretize(&case["line"])
         };
+        let mut argv = argv;
+        if let Some(p) = case.get("partial").and_then(J::as_str) {
+            argv.push(bpaf_verif_harness::build::os(&bpaf_verif_harness::val::dec(p)));
+        }
         let _env = EnvGuard::apply(case.get("env"));
         let (b, _) = cache.get(&case);
         let b = match b {
